@@ -16,7 +16,7 @@ PLAN = {
     "C04": ("c04", [("step", "Step", 6000, 150000), ("walk", "Walk", 800, 20000)]),
     "C05": ("c05", [("walk", "Walk", 2500, 60000)]),
     "C06": ("c06", [("frame", "Step", 4000, 100000), ("walk", "Walk", 1000, 25000)]),
-    "C07": ("c07", [("total", "Step", 4000, 100000), ("totalwalk", "Walk", 1000, 25000)]),
+    "C07": ("c07", [("total", "Step", 4000, 100000), ("totalwalk", "Walk", 1000, 25000), ("exotic", "Step", 600, 10000)]),
     "C08": ("c08", [("emit", "Step", 5000, 120000), ("walk", "Walk", 800, 20000)]),
     "C18": ("c18", [("perm", "Step", 6000, 150000)]),
     "C09": ("c09", [("persist", "Persist", 4000, 100000)]),
@@ -55,7 +55,15 @@ def run(pid, tier, seed, replay):
         for i, (mode, judge, nq, nt) in enumerate(plan):
             n = nq if tier == "quick" else nt
             out = os.path.join(wd, mode + ".ndjson")
-            vlib.run([drv, "gen", mode, str(n), str(seed * 100 + i), out], timeout=6000)
+            p = vlib.run([drv, "gen", mode, str(n), str(seed * 100 + i), out], timeout=6000, check=False)
+            if p.returncode != 0:
+                if pid == "C07" and "fatal error:" in p.stdout:
+                    # the host process itself died while processing: exactly what C07 forbids
+                    rep.reject("the driver process was killed by the Go runtime while processing generated cases (%s)" % mode, [],
+                               {"property": pid, "labels": ["host-process-crashed"], "mode": mode, "seed": seed * 100 + i, "n": n,
+                                "how_to_rerun": "stepdrv gen %s %d %d out.ndjson" % (mode, n, seed * 100 + i), "output": p.stdout[:3000]})
+                    continue
+                raise vlib.CannotRun("stepdrv failed (%s):\n%s" % (mode, p.stdout[-3000:]))
             runs.append((mode, judge, out))
     tot = {"generated": 0, "distinct": 0}
     exhaustive = False
